@@ -338,7 +338,7 @@ def coq_props(pid, timeout=3000):
         if b.startswith("Closed"):
             thms.append({"name": n, "status": "closed", "axioms": []})
         else:
-            axs = re.findall(r"^([A-Za-z0-9_.']+)\s*:", b, re.M)
+            axs = [a for a in re.findall(r"^([A-Za-z0-9_.']+)\s*:", b, re.M) if a != "Axioms"]
             badax = [a for a in axs if not a.startswith(ALLOWED_AXIOM_PREFIXES)]
             thms.append({"name": n, "status": "axioms-ok" if not badax else "forbidden-axioms", "axioms": axs})
     res["theorems"] = thms
